@@ -60,17 +60,18 @@ func goEnv() []string {
 }
 
 type shardResult struct {
-	Prop       string           `json:"prop"`
-	Shard      int              `json:"shard"`
-	Cases      int64            `json:"cases"`
-	Stats      map[string]int64 `json:"stats"`
-	Distinct   []uint64         `json:"distinct"`
-	DistinctN  int64            `json:"distinct_n"`
-	Samples    []any            `json:"samples"`
-	Violations []replayFile     `json:"violations"`
-	WallS      float64          `json:"wall_s"`
-	Exhaustive bool             `json:"exhaustive"`
-	Notes      []string         `json:"notes"`
+	Prop       string               `json:"prop"`
+	Shard      int                  `json:"shard"`
+	Cases      int64                `json:"cases"`
+	Stats      map[string]int64     `json:"stats"`
+	Distinct   []uint64             `json:"distinct"`
+	DistinctN  int64                `json:"distinct_n"`
+	Samples    []any                `json:"samples"`
+	Violations []replayFile         `json:"violations"`
+	WallS      float64              `json:"wall_s"`
+	Exhaustive bool                 `json:"exhaustive"`
+	Notes      []string             `json:"notes"`
+	Digests    map[string][2]uint64 `json:"digests,omitempty"`
 }
 
 type violation struct {
@@ -194,8 +195,12 @@ type shardOut struct {
 }
 
 func runShard(b *build, cfg *propCfg, tier string, seed uint64, shard, nshards, budgetMS int, extra []string) shardOut {
-	outPath := filepath.Join(b.scratch, fmt.Sprintf("shard%d.json", shard))
-	statusPath := filepath.Join(b.scratch, fmt.Sprintf("status%d.json", shard))
+	return runShardAs(b, cfg, tier, seed, shard, nshards, budgetMS, extra, "")
+}
+
+func runShardAs(b *build, cfg *propCfg, tier string, seed uint64, shard, nshards, budgetMS int, extra []string, tag string) shardOut {
+	outPath := filepath.Join(b.scratch, fmt.Sprintf("shard%s%d.json", tag, shard))
+	statusPath := filepath.Join(b.scratch, fmt.Sprintf("status%s%d.json", tag, shard))
 	cmd := exec.Command(b.bin, "-test.run", "^TestSim$", "-test.timeout", "0", "-test.count", "1")
 	cmd.Dir = b.scratch
 	cmd.Env = append(os.Environ(),
@@ -374,6 +379,18 @@ func check(id, tier string) int {
 		}(i)
 	}
 	wg.Wait()
+	if cfg.ID == "C13" {
+		n := 120
+		if tier == "thorough" {
+			n = 2000
+		}
+		v, st := crossProcessDeterminism(cfg, b, tier, seed, n)
+		extra := shardOut{res: &shardResult{Prop: cfg.ID, Stats: st, Exhaustive: true}}
+		if v != nil {
+			extra.res.Violations = []replayFile{{Property: cfg.ID, Tier: tier, Seed: seed, Stream: cfg.ID, Random: true, Violation: *v, Engine: "libsim"}}
+		}
+		outs = append(outs, extra)
+	}
 	return aggregate(cfg, tier, seed, b, outs, start, buildS)
 }
 
